@@ -161,6 +161,7 @@ def check(run):
     _r4(run, mi)
     _r5(run, mi)
     _r6(run, mi)
+    _r7(run, mi)
 
 
 # ---------------------------------------------------------------------------------------------
@@ -347,7 +348,7 @@ def _r3(run, mi):
     want = L('FA') * L(ps[2]) if len(ps) > 2 else None
     if got is None:
         run.undecided('C09-R3', '_from_element_density_point scaling', 'returned value could not be evaluated')
-    elif any(l.startswith('?') for l in got.leaves()):
+    elif any('?' in l for l in got.leaves()):
         run.undecided('C09-R3', '_from_element_density_point scaling', 'returned value contains unrecognised terms: %s' % got.key()[:80])
     elif got.eq(want):
         run.ok('C09-R3', '_from_element_density_point scaling', got.key())
@@ -363,7 +364,7 @@ def _r3(run, mi):
     unclamped = L('FA') * ((L(ne) - L('Q(%s[*])' % nsp)) / L('Q(FA)'))
     if got is None:
         run.undecided('C09-R3', '_match_element_density_point scaling', 'returned value could not be evaluated')
-    elif any(l.startswith('?') for l in got.leaves()):
+    elif any('?' in l for l in got.leaves()):
         run.undecided('C09-R3', '_match_element_density_point scaling', 'returned value contains unrecognised terms: %s' % got.key()[:80])
     elif got.eq(want):
         run.ok('C09-R3', '_match_element_density_point scaling', got.key())
@@ -539,8 +540,113 @@ def _r6(run, mi):
                              "different %s gets the stale entry (the result depends on call order)" % (name, norm(v)[:40], t.value.id, norm(t.slice), missing, missing[0]))
                 else:
                     run.ok('C09-R6', '%s cache %s' % (name, t.value.id), 'key %s covers %s' % (norm(t.slice), sorted(valdeps)))
+    from ..cachekey import local_memos
+    for name, fn in sorted(mi.functions.items()):
+        n += local_memos(run, 'C09-R6', mi, name, fn)
     run.subject('C09-R6')
     run.ok('C09-R6', 'module-level mutable state', '%d module-level containers, %d cache stores' % (len(globals_), n), sample=True)
+
+
+def _r7(run, mi):
+    """R7: no function changes the arrays it is given (the densities of the other species, the profiles): results may not depend on,
+    nor destroy, the caller's data.  R8: buffers that receive computed floats are not typed after an input array."""
+    run.describe('C09-R7', 'argument arrays are never modified in place; result buffers do not inherit the dtype of an input')
+    ARR = ('np.arange', 'np.array', 'np.asarray', 'np.ones', 'np.zeros', 'np.linspace', 'np.full', 'np.sum', 'np.cumsum', 'np.multiply', 'np.exp')
+    n = 0
+    for name, fn in sorted(mi.functions.items()):
+        ps = set(params_of(fn))
+        alias = set(ps)
+        grew = True
+        while grew:
+            grew = False
+            for st in ast.walk(fn):
+                new = set()
+                if isinstance(st, ast.For):
+                    it = st.iter
+                    # iterating a parameter (or its .values()/.items()) hands out its elements
+                    base = it.func.value if isinstance(it, ast.Call) and isinstance(it.func, ast.Attribute) and it.func.attr in ('values', 'items') else it
+                    if isinstance(base, ast.Name) and base.id in alias and not (isinstance(it, ast.Call) and dotted(it.func) in ('enumerate', 'range', 'zip')):
+                        new |= {x.id for x in ast.walk(st.target) if isinstance(x, ast.Name)}
+                elif isinstance(st, ast.Assign) and len(st.targets) == 1 and isinstance(st.targets[0], ast.Name):
+                    v = st.value
+                    while isinstance(v, ast.Subscript):
+                        v = v.value
+                    if isinstance(v, ast.Name) and v.id in alias and st.value is not v or (isinstance(st.value, ast.Name) and st.value.id in alias):
+                        # a view / the same object -- unless the name is rebound to a fresh array elsewhere first, which copy_kind cannot see here
+                        new.add(st.targets[0].id)
+                if new - alias:
+                    alias |= new
+                    grew = True
+        # names rebound to a copy are not aliases any more
+        from ..flow import copy_kind
+        rebound = {st.targets[0].id for st in ast.walk(fn) if isinstance(st, ast.Assign) and len(st.targets) == 1 and isinstance(st.targets[0], ast.Name)
+                   and copy_kind(st.value, alias) == 'copy'}
+        for st in ast.walk(fn):
+            bad = None
+            if isinstance(st, ast.AugAssign):
+                t = st.target
+                if isinstance(t, ast.Subscript):
+                    b0 = t.value
+                    while isinstance(b0, ast.Subscript):
+                        b0 = b0.value
+                    if isinstance(b0, ast.Name) and b0.id in alias - rebound:
+                        bad = norm(st)
+                elif isinstance(t, ast.Name) and t.id in alias - rebound and t.id not in ps and any(
+                        isinstance(c, ast.Call) and (dotted(c.func) or '') in ARR for c in ast.walk(st.value)):
+                    bad = norm(st)
+            elif isinstance(st, ast.Assign) and isinstance(st.targets[0], ast.Subscript):
+                b0 = st.targets[0].value
+                while isinstance(b0, ast.Subscript):
+                    b0 = b0.value
+                if isinstance(b0, ast.Name) and b0.id in alias - rebound:
+                    # re-wrapping the very element that is replaced (x[i] = np.array([v]) with v the i-th element) keeps every value
+                    v = st.value
+                    while True:
+                        if isinstance(v, ast.Call) and dotted(v.func) in ('np.array', 'np.asarray', 'np.atleast_1d', 'float', 'int') and v.args:
+                            v = v.args[0]
+                        elif isinstance(v, (ast.List, ast.Tuple)) and len(v.elts) == 1:
+                            v = v.elts[0]
+                        else:
+                            break
+                    same_elem = False
+                    if isinstance(v, ast.Name):
+                        for lp_ in ast.walk(fn):
+                            if isinstance(lp_, ast.For) and any(x is st for x in ast.walk(lp_)) and isinstance(lp_.iter, ast.Call) \
+                                    and dotted(lp_.iter.func) == 'enumerate' and isinstance(lp_.target, ast.Tuple) and len(lp_.target.elts) == 2 \
+                                    and norm(lp_.iter.args[0]) == b0.id and norm(lp_.target.elts[1]) == v.id \
+                                    and norm(st.targets[0].slice) == norm(lp_.target.elts[0]):
+                                same_elem = True
+                    if not same_elem:
+                        bad = norm(st)
+            elif isinstance(st, ast.Expr) and isinstance(st.value, ast.Call) and isinstance(st.value.func, ast.Attribute) \
+                    and st.value.func.attr in ('sort', 'fill', 'resize', 'append', 'extend', 'clear', 'pop', 'update', 'itemset', 'put') \
+                    and isinstance(st.value.func.value, ast.Name) and st.value.func.value.id in alias - rebound:
+                bad = norm(st)
+            if bad:
+                n += 1
+                run.subject('C09-R7')
+                run.fail('C09-R7', '%s|%s|mutates-argument' % (MOD, name), FILE, st.lineno,
+                         "%s changes data it was given in place (%s): the caller's arrays are overwritten, so a second call, or the sum of the returned and "
+                         "the given densities, no longer corresponds to the inputs" % (name, bad[:70]))
+        # dtype inheritance
+        for st in ast.walk(fn):
+            if isinstance(st, ast.Assign) and len(st.targets) == 1 and isinstance(st.targets[0], ast.Name) and isinstance(st.value, ast.Call) \
+                    and dotted(st.value.func) in ('np.zeros_like', 'np.empty_like', 'np.ones_like', 'np.full_like') \
+                    and not any(k.arg == 'dtype' for k in st.value.keywords):
+                buf = st.targets[0].id
+                written = [s2 for s2 in ast.walk(fn) if isinstance(s2, (ast.Assign, ast.AugAssign)) and any(
+                    isinstance(t2, ast.Subscript) and isinstance(t2.value, ast.Name) and t2.value.id == buf
+                    for t2 in (s2.targets if isinstance(s2, ast.Assign) else [s2.target]))]
+                if written and any(isinstance(x, ast.Name) and x.id in alias for x in ast.walk(st.value.args[0])):
+                    n += 1
+                    run.subject('C09-R7')
+                    run.fail('C09-R7', '%s|%s|buffer-dtype:%s' % (MOD, name, buf), FILE, st.lineno,
+                             "%s allocates '%s' with %s and then stores computed values in it: for an integer-typed input the values are silently "
+                             "truncated to integers, so a profile given as a function disagrees with the same profile given as an array"
+                             % (name, buf, norm(st.value)[:50]))
+    run.subject('C09-R7')
+    if n == 0:
+        run.ok('C09-R7', 'all functions', 'no in-place change of an argument, no result buffer typed after an input')
 
 
 class _Stop(Exception):
@@ -707,6 +813,9 @@ def _r4(run, mi):
 
 
 MUTANTS = [
+    dict(name='species-charge-summed-in-place', file=FILE, find="        for index, value in enumerate(abundance):\n            element_n_e -= index * value\n",
+         replace="        abundance *= np.arange(len(abundance))\n        element_n_e -= np.sum(abundance)\n", expect='C09-R7'),
+    dict(name='function-buffer-typed-after-the-free-variable', file=FILE, find="            array = np.zeros(free_variable.shape)", replace="            array = np.zeros_like(free_variable)", expect='C09-R7'),
     dict(name='D14-reintroduced', file=FILE,
          find="    elif tcx_donor is None:\n        coef_tcx = None\n\n    # calculate fractional abundance for the element\n    fractional_abundance = _fractional_abundance_point(element, n_e, t_e, coef_ion, coef_recom, coef_tcx,\n                                                       tcx_donor_n)",
          replace="    else:\n        coef_tcx = None\n\n    # calculate fractional abundance for the element\n    fractional_abundance = _fractional_abundance_point(element, n_e, t_e, coef_ion, coef_recom, coef_tcx,\n                                                       tcx_donor_n)", expect='C09-R1'),
